@@ -281,7 +281,6 @@ func aggregate(obls []*Obligation) map[string]*aggObl {
 }
 
 func cmdList(args []string) int     { fmt.Println("not implemented"); return 0 }
-func cmdReplay(args []string) int   { fmt.Println("not implemented"); return 0 }
 
 
 // expandMonitorModifies rewrites `modifies monitor(x)` into the guard list of
